@@ -24,6 +24,7 @@ import (
 	"time"
 
 	"github.com/mgtv-tech/redis-GunYu/config"
+	"github.com/mgtv-tech/redis-GunYu/pkg/rdb"
 	"github.com/mgtv-tech/redis-GunYu/pkg/redis/checkpoint"
 	"github.com/mgtv-tech/redis-GunYu/pkg/redis/client"
 	"github.com/mgtv-tech/redis-GunYu/syncer"
@@ -57,6 +58,7 @@ type scenario struct {
 	snapshot bool
 	restore  bool
 	left     bool // leftovers of an older link incarnation in the reserved namespace
+	chunk    int  // value-chunking threshold of the snapshot parser (0 = default 16 MiB): big values travel in several bins
 	ops      [2][]op
 	data     [2][]*rdbgen.Entry
 	base     [2]int64
@@ -160,6 +162,31 @@ func genData(r *hx.Rng, site int) []*rdbgen.Entry {
 		}
 		if r.Chance(30) {
 			e.ExpireAtMs = time.Now().UnixMilli() + 3600_000 + int64(r.Intn(1000))
+		}
+		out = append(out, e)
+	}
+	// values large enough to be split into several bins when the chunking threshold is lowered
+	if r.Chance(60) {
+		e := &rdbgen.Entry{Key: b(p + "big")}
+		switch r.Intn(3) {
+		case 0:
+			v := rdbgen.Val{Type: "list"}
+			for j := 0; j < 6+r.Intn(10); j++ {
+				v.List = append(v.List, b(fmt.Sprintf("elem-%d-%s", j, siteName[site])))
+			}
+			e.Val, e.Enc = v, []string{"quicklist", "quicklist2", "linked"}[r.Intn(3)]
+		case 1:
+			v := rdbgen.Val{Type: "hash"}
+			for j := 0; j < 6+r.Intn(10); j++ {
+				v.Hash = append(v.Hash, [2][]byte{b(fmt.Sprintf("field-%d", j)), b(fmt.Sprintf("value-%d-%s", j, siteName[site]))})
+			}
+			e.Val, e.Enc = v, "table"
+		default:
+			v := rdbgen.Val{Type: "set"}
+			for j := 0; j < 6+r.Intn(10); j++ {
+				v.Set = append(v.Set, b(fmt.Sprintf("member-%d-%s", j, siteName[site])))
+			}
+			e.Val, e.Enc = v, "table"
 		}
 		out = append(out, e)
 	}
@@ -344,6 +371,9 @@ func newOutput(sc *scenario, i int, target *fakeredis.Server) *syncer.RedisOutpu
 }
 
 func runScenario(sc *scenario, tr *hx.Trace) (units int) {
+	if sc.chunk > 0 {
+		defer rdb.VerifSetMaxBinEntryBuffer(rdb.VerifSetMaxBinEntryBuffer(sc.chunk))
+	}
 	var sites [2]*fakeredis.Server
 	payloads := map[string]*rdbgen.Entry{}
 	var pmu sync.Mutex
@@ -589,7 +619,7 @@ func runScenario(sc *scenario, tr *hx.Trace) (units int) {
 	wg.Wait()
 
 	// ---- trace
-	tr.Emit(map[string]interface{}{"ev": "Reset", "id": sc.id, "mode": sc.mode, "snapshot": sc.snapshot, "restore": sc.restore, "wrap1": sc.wrap1, "leftovers": sc.left})
+	tr.Emit(map[string]interface{}{"ev": "Reset", "id": sc.id, "mode": sc.mode, "snapshot": sc.snapshot, "restore": sc.restore, "wrap1": sc.wrap1, "leftovers": sc.left, "chunk": sc.chunk})
 	for i := 0; i < 2; i++ {
 		for _, u := range clientUnits[i] {
 			tr.Emit(map[string]interface{}{"ev": "Client", "site": i, "cmds": u.cmds, "txn": u.txn})
@@ -745,6 +775,9 @@ func main() {
 		}
 		r := hx.NewRng(*seed*7919 + uint64(s))
 		sc := &scenario{id: s + 1, mode: []string{"sync", "pipeline", "parallel"}[r.Intn(3)], wrap1: r.Chance(30), snapshot: r.Chance(50), restore: r.Chance(50), left: r.Chance(60)}
+		if sc.snapshot && r.Chance(50) {
+			sc.chunk = 30 + r.Intn(60)
+		}
 		for i := 0; i < 2; i++ {
 			sc.ops[i] = genOps(r, i, r.Intn(*maxOps+1))
 			if sc.snapshot {
